@@ -107,6 +107,8 @@ func c15Body(x *Exec, raw json.RawMessage) {
 				}
 				return
 			}
+			lockFree()
+			defer unlockFree()
 			hist = append(hist, LinOp{Thread: th, Call: c, Ret: r, Name: fmt.Sprintf("get(%d)=%d,%v", key, val, found), Apply: func(s LinState) []LinState {
 				if found && s[key] == int64(val) || !found && s[key] == absent {
 					return []LinState{s}
@@ -114,8 +116,10 @@ func c15Body(x *Exec, raw json.RawMessage) {
 				return nil
 			}})
 		case "ins", "del", "nop":
+			lockFree()
 			nextVal++
 			nv := nextVal
+			unlockFree()
 			calls := 0
 			sawVal, sawFound := 0, false
 			c := x.Now()
@@ -159,6 +163,8 @@ func c15Body(x *Exec, raw json.RawMessage) {
 				}
 				return
 			}
+			lockFree()
+			defer unlockFree()
 			if f[0] != "nop" {
 				writes = append(writes, writeRec{key: key, val: newVal, present: newPresent, call: c, ret: r, prevVal: sawVal, prevFound: sawFound, thread: th, calls: calls})
 			}
@@ -185,7 +191,9 @@ func c15Body(x *Exec, raw json.RawMessage) {
 			sorted := append([][2]int(nil), items...)
 			sort.Slice(sorted, func(i, j int) bool { return sorted[i][0] < sorted[j][0] })
 			x.Obsf("T%d range %v", th, sorted)
+			lockFree()
 			ranges = append(ranges, rangeRec{c, r, items})
+			unlockFree()
 		case "clear":
 			c := x.Now()
 			m.Clear()
@@ -195,6 +203,8 @@ func c15Body(x *Exec, raw json.RawMessage) {
 				model = map[int]int{}
 				return
 			}
+			lockFree()
+			defer unlockFree()
 			writes = append(writes, writeRec{key: -1, call: c, ret: r})
 			hist = append(hist, LinOp{Thread: th, Call: c, Ret: r, Name: "clear", Apply: func(s LinState) []LinState {
 				return []LinState{EmptyLinState()}
